@@ -192,6 +192,33 @@ def section_case(case):
     return {"nontrivial": len(styles) >= 2, "labels": ["accepted", case["format"]]}
 
 
+# ---- absolute paths never get into the table -----------------------------------------------------------------------------
+_abs_key = st.one_of(
+    st.sampled_from(["/abs/repomd.xml", "/mnt/x86_64/os//images/boot.iso", "//f", "/m/a/os/f", "/os//f", "/a/os/b/os//c", "/mnt/tree/os///x", "/images/boot.iso"]),
+    st.builds(lambda pre, mid, rest: "/" + pre + mid + rest, st.sampled_from(["mnt/x86_64", "m", "srv/tree/7", ""]), st.sampled_from(["/os/", "/os//", "/", "/os///", "/OS/"]),
+              st.sampled_from(["images/boot.iso", "f", "repodata/repomd.xml", "/f"])))
+absolute_strategy = st.fixed_dictionaries({"key": _abs_key, "format": st.sampled_from(["current", "pre-productmd"]), "others": st.lists(_key, max_size=2, unique=True)})
+
+
+def absolute_case(case):
+    """whatever a reader makes of an absolute path in the file (cuts it at the tree root, refuses the file): no absolute path is in
+    the table afterwards, and what was accepted can be written and read again"""
+    from productmd.treeinfo import TreeInfo
+    lines = ["%s = sha256:%s" % (k, "ab" * 32) for k in [case["key"]] + [o for o in case["others"] if o != case["key"]]]
+    doc = (CURRENT_HEAD if case["format"] == "current" else OLD_HEAD) + "[checksums]\n" + "\n".join(lines) + "\n"
+    ti = TreeInfo()
+    try:
+        ti.loads(doc)
+    except Exception:  # noqa (refused)
+        return {"nontrivial": True, "labels": ["rejected", case["format"]]}
+    held = sorted(ti.checksums.checksums)
+    check(not [k for k in held if k.startswith("/")], "absolute-path-in-table", lambda: "%s file with the checksum path %r: the table holds %r" % (case["format"], case["key"], held))
+    check(case["format"] != "current", "absolute-path-accepted", lambda: "current-format file with the checksum path %r was loaded (table %r)" % (case["key"], held))
+    again = TreeInfo()
+    must("reload-accepted", again.loads, must("dumps-accepted", ti.dumps))
+    return {"nontrivial": True, "labels": ["made-relative", case["format"]]}
+
+
 # ---- Image.add_checksum ---------------------------------------------------------------------------------------------
 _val = st.sampled_from(["aaa", "bbb", "", None, "AAA", "aaa "])
 addsum_strategy = st.lists(st.tuples(st.sampled_from(["md5", "sha256", "sha1", "SHA256", "Sha1", "MD5", "sha-256", "x"]), _val), min_size=1, max_size=10)   # type names are taken as given (any spelling a producer uses)
@@ -229,7 +256,8 @@ def run(ctx):
                 yield {"block_hex": "00ff10a55a0d0a1a", "size": size, "alg": alg, "dirs": ["d"], "file": "f", "noise": ["./", "x/../"], "noise_at": 1}
     ctx.sweep("compute-boundaries", boundary(), compute_case, exhaustive=True)
     ctx.forall("sections", section_strategy, section_case, ctx.n(2400, 80000))
+    ctx.forall("absolute-keys", absolute_strategy, absolute_case, ctx.n(400, 10000))
     ctx.forall("image-add-checksum", addsum_strategy, addsum_case, ctx.n(1000, 30000))
 
 
-REPLAY = {"compute": compute_case, "compute-boundaries": compute_case, "sections": section_case, "image-add-checksum": addsum_case}
+REPLAY = {"absolute-keys": absolute_case, "compute": compute_case, "compute-boundaries": compute_case, "sections": section_case, "image-add-checksum": addsum_case}
